@@ -1,8 +1,19 @@
 #!/bin/bash
-# seeded_all_scratch.sh : every seeded change against the check(s) expected to catch it, on a scratch worktree (/repo stays free)
+# seeded_all_scratch.sh : every seeded change against the check(s) expected to catch it, on ONE scratch worktree that is kept for the
+# whole batch (patch applied / reverted in place, so the scratch harness rebuilds incrementally); /repo stays free
 cd /verif
+W=/root/scratch/repo-seed
+mkdir -p /root/scratch
+git -C /repo worktree add --detach $W HEAD -q || exit 2
+trap 'git -C /repo worktree remove --force $W; git -C /repo worktree prune' EXIT
 for d in seeded/*/; do
   s=$(basename $d)
   cks=${s:0:3}; [ -f $d/checks.txt ] && cks=$(cat $d/checks.txt)
-  lib/seeded_scratch.sh $s $cks 2>&1 | grep -E "exit=|does not apply|error" | head -3
+  git -C $W apply /verif/$d/patch.diff 2>/dev/null || { echo "$s patch does not apply"; git -C $W checkout -q -- .; continue; }
+  for c in $cks; do
+    out=$(VERIF_REPO=$W ./check $c ${TIER:-quick} 2>&1); rc=$?
+    echo "$s $c (scratch) exit=$rc violations=$(echo "$out" | grep -c '^VIOLATION')"
+    [ $rc -eq 2 ] && echo "$out" | tail -3
+  done
+  git -C $W checkout -q -- . ; git -C $W clean -fdq
 done
